@@ -58,6 +58,16 @@ def run(ctx):
                 traces=[ctx.path("sm-steps.ndjson"), ctx.path("sm-stress.ndjson")])
     sm = ctx.load_traces(ctx.path("sm-steps.ndjson"))
     rj += ctx.validate("semap", "Semap_Trace", "Semap_Trace.cfg", sm, label="sharded-semaphores", chunk=20000)
+    # sharded LRUs under capacity pressure: C04's wide histories (events routed per shard by the public
+    # remap index) must behave, shard by shard, as the unsharded LRU of capacity cap/shards+1
+    b04 = ctx.go_build("c04")
+    ctx.harness(b04, ["-out", ctx.path("wl-seq.ndjson"), "-conc", ctx.path("wl-conc.ndjson"), "-seed", ctx.seed,
+                      "-hist", 0, "-nconc", 0, "-nwide", ctx.q(60, 1200), "-maxops", ctx.q(80, 200),
+                      "-nrace", 0, "-nracekeep", 0, "-nwrace", ctx.q(4000, 60000), "-nwracekeep", ctx.q(600, 8000)],
+                traces=[ctx.path("wl-seq.ndjson"), ctx.path("wl-conc.ndjson")])
+    wl = ctx.load_traces(ctx.path("wl-seq.ndjson")) + ctx.load_traces(ctx.path("wl-conc.ndjson"))
+    rj += ctx.validate("lru", "LRU_Trace", "LRU_Trace.cfg", wl, label="sharded-lru", chunk=20000)
+    ctx.extra["sharded_lru_traces"] = len(wl)
     ctx.extra["sharded_locker_traces"] = len(lk)
     ctx.extra["sharded_semaphore_traces"] = len(sm)
     ctx.judge(rj)
